@@ -7,6 +7,7 @@ FIX = [  # (substring of commit subject, property, key at the time, what failed)
  ('deep copy follows', 'C03', 'crash:deepCopier.deepCopy', 'pointer/map reaching itself through an interface value overflowed the stack; typed nil pointer in an interface panicked'),
  ('Pointerify stops', 'C03', 'crash:ptrify.pointerify', 'cyclic interface-held default value made Pointerify recurse forever'),
  ('deep copy terminates on a slice', 'C03', 'crash-stack-overflow:slice-reaching-itself-through-interface-values', 's := make([]any,1); s[0]=s in a default or source value overflowed the stack in deepCopySlice'),
+ ('deep copy terminates on a typed slice', 'C03', 'crash-stack-overflow:slice-reaching-itself-through-struct-values', 'type T struct{ID int; Vals []T}; v.Vals[0].Vals = v.Vals (a typed slice reaching itself through its own by-value element) in a default or source value overflowed the stack in deepCopySlice'),
  ('an array in an interface field', 'C03', 'split:any-set-by-two-layers', 'array in an interface field set by two layers was deep-copied twice: Any[0] != Kids[0] although identical in the source value'),
  ('API calls racing', 'C08', 'crash:Dials.submitEventBlocking', 'RegisterCallback/unregister after or during monitor shutdown panicked with send on closed channel'),
  ('unregistering a callback', 'C08', 'crash:callbackMgr.runCBs', 'second call of an UnregisterCBFunc crashed the process (makeslice: cap out of range)'),
